@@ -9,6 +9,7 @@ import (
 	"os"
 	"path/filepath"
 	"strings"
+	"unicode/utf16"
 
 	"github.com/akalin/gopar/par2"
 
@@ -150,6 +151,54 @@ func runC15(args []string) error {
 				ro := runRepair(filepath.Join(arch, "t.par2"), 2, ni%2 == 0, false, nil)
 				after, _ := sandbox.Take(root)
 				lg.Emit(tracelog.M{"ev": "par2", "name": scrub([]string{name}, c.dir)[0], "pos": pos, "n": n, "accept_model": nm.Accept2, "contained": nm.Contained,
+					"verify_err": vo.Err, "repair_err": ro.Err, "errtext": tail(vo.ErrText+"|"+ro.ErrText, 120), "repaired": scrub(ro.Repaired, c.dir),
+					"outside": scrub(outsideChanges(before, after, "outer/arch/", false), c.dir), "crashed": vo.Err == "panic" || ro.Err == "panic",
+					"is_outside": false, "refused": false, "nothing_written": true})
+			}
+			// ---------------- PAR2 with an optional Unicode Filename packet: every file description packet carries a
+			// harmless ASCII name; the hostile spelling arrives in a "PAR 2.0\0UniFileN" packet for the same file id.
+			// A reader may ignore that packet or use it, but must not let it direct a write outside the directory.
+			if name != "" && !strings.ContainsRune(name, 0) && (thorough || ni%4 == 0) {
+				if err := buildCanaryTree(root); err != nil {
+					return err
+				}
+				all := []refpar2.InFile{{Name: "ok1.dat", Data: []byte("first ok file")}, {Name: "plain-ascii.dat", Data: []byte("evil payload of " + fmt.Sprint(ni))}}
+				set := refpar2.NewSet(all, 8)
+				slices := set.AllSlices()
+				var uni []byte
+				for i, f := range set.Files {
+					if f.Name == "plain-ascii.dat" {
+						body := append([]byte{}, set.IDs[i][:]...)
+						for _, u := range utf16.Encode([]rune(name)) {
+							body = append(body, byte(u), byte(u>>8))
+						}
+						for len(body)%4 != 0 {
+							body = append(body, 0)
+						}
+						var t [16]byte
+						copy(t[:], "PAR 2.0\x00UniFileN")
+						uni = refpar2.Frame(set.SetID, t, body)
+					}
+				}
+				var idx, vol bytes.Buffer
+				idx.Write(set.CreatorPacket("ref"))
+				idx.Write(set.MainPacket())
+				for i := range set.Files {
+					idx.Write(set.FileDescPacket(i))
+					idx.Write(set.IFSCPacket(i))
+				}
+				idx.Write(uni)
+				vol.Write(idx.Bytes())
+				for e := 0; e < len(slices); e++ {
+					vol.Write(set.RecvPacketWithData(uint32(e), refpar2.RecoveryBlock(slices, uint32(e))))
+				}
+				ioutil.WriteFile(filepath.Join(arch, "t.par2"), idx.Bytes(), 0644)
+				ioutil.WriteFile(filepath.Join(arch, "t.vol0.par2"), vol.Bytes(), 0644)
+				before, _ := sandbox.Take(root)
+				vo := runVerify(filepath.Join(arch, "t.par2"), 2, false, nil)
+				ro := runRepair(filepath.Join(arch, "t.par2"), 2, ni%2 == 0, false, nil)
+				after, _ := sandbox.Take(root)
+				lg.Emit(tracelog.M{"ev": "par2uni", "name": scrub([]string{name}, c.dir)[0], "pos": pos, "n": 2, "accept_model": true, "contained": true,
 					"verify_err": vo.Err, "repair_err": ro.Err, "errtext": tail(vo.ErrText+"|"+ro.ErrText, 120), "repaired": scrub(ro.Repaired, c.dir),
 					"outside": scrub(outsideChanges(before, after, "outer/arch/", false), c.dir), "crashed": vo.Err == "panic" || ro.Err == "panic",
 					"is_outside": false, "refused": false, "nothing_written": true})
